@@ -227,6 +227,7 @@ func runTLC(r *core.Run, ss []*session, cfg string) (*verdict, error) {
 }
 
 type stats struct {
+	mu                                                sync.Mutex // tlcStates and heldMiss are written by the validating goroutine
 	sessions, events, requests, callbacks, nontrivial int
 	closed, exited, noExit, cancelled, held, heldMiss int
 	crashes, hangs                                    int
@@ -244,7 +245,9 @@ func validate(r *core.Run, o sessionOpts, ss []*session, st *stats) {
 			r.Infra("service trace validation failed to run: %v", err)
 			return
 		}
+		st.mu.Lock()
 		st.tlcStates += v.states
+		st.mu.Unlock()
 		n := len(ss)
 		if !v.ok {
 			n = v.bad
@@ -309,7 +312,9 @@ func handleRejected(r *core.Run, o sessionOpts, s *session, v *verdict, st *stat
 			return
 		}
 	}
+	st.mu.Lock()
 	st.heldMiss++
+	st.mu.Unlock()
 	r.Logf("session %d (seed %d): rejected only under the scheduling assumption of held answers (hold %v) and accepted twice when repeated with longer holds: not reported", s.ID, s.Seed, o.hold)
 }
 
@@ -437,16 +442,33 @@ func Run(r *core.Run) {
 			exes = append(exes, or)
 		}
 	}
+	// sessions of the next batch run while TLC validates the previous one
+	jobs := make(chan []*session, 1)
+	valDone := make(chan struct{})
+	go func() {
+		defer close(valDone)
+		for ss := range jobs {
+			validate(r, o, ss, st)
+		}
+	}()
+	sessStart := time.Now()
 	nsess := r.Pick(40, 1000)
+	if v, err := strconv.Atoi(os.Getenv("VERIF_SVC_SESSIONS")); err == nil && v > 0 { // developer switch
+		nsess = v
+	}
 	batch := r.Pick(20, 40)
 	for start := 0; start < nsess && r.Violations() <= 5; start += batch {
+		if r.Thorough() && time.Since(sessStart) > 18*time.Minute {
+			r.Logf("service: time budget of the session driver reached after %d of %d sessions", start, nsess)
+			break
+		}
 		n := batch
 		if start+n > nsess {
 			n = nsess - start
 		}
 		oo := exes[(start/batch)%len(exes)]
 		out := make([]*session, n)
-		core.Parallel(n, 6, func(i int) {
+		core.Parallel(n, 8, func(i int) {
 			id := start + i
 			seed := r.Seed*1000003 + int64(id)*7919 + 17
 			out[i] = runSession(oo, id, seed, profileOf(id, r.Thorough()))
@@ -483,6 +505,9 @@ func Run(r *core.Run) {
 			if s.ID%10 == 0 {
 				r.Sample(map[string]interface{}{"service_session": s.ID, "seed": s.Seed, "profile": s.Profile, "args": s.Args, "requests": s.Requests, "callbacks": s.Callback, "max_inflight": s.MaxIn, "events": len(s.Events), "kinds": s.Kinds})
 			}
+			if s.Profile == "crash" {
+				r.Logf("service: replay of the Service.crash.cfg counterexample (rebuild, cancel, dispose in one write), session %d: crash=%q exit=%d responses=%v", s.ID, s.Crash, s.ExitCode, s.Kinds)
+			}
 			replay := map[string]interface{}{"seed": s.Seed, "profile": s.Profile, "args": s.Args, "race": oo.race, "packets": s.Log, "stderr": s.Stderr}
 			switch {
 			case s.ProtoErr != "":
@@ -517,8 +542,10 @@ func Run(r *core.Run) {
 				ok = append(ok, s)
 			}
 		}
-		validate(r, o, ok, st)
+		jobs <- ok
 	}
+	close(jobs)
+	<-valDone
 	r.Set("service_sessions", st.sessions)
 	r.Set("service_events", st.events)
 	r.Set("service_requests", st.requests)
